@@ -554,6 +554,28 @@ impl SynthFont {
             f.sources[0].info.os2_unicode_ranges = pick(&mut og2);
             f.sources[0].info.os2_codepage_ranges = pick(&mut og2);
         }
+        // one UFO serving two designspace sources: a second <source> at a new location on one axis naming the
+        // same file as an existing full master (a plateau); every drawing, anchor, metric and kerning value repeats there
+        if (p.anchors || p.kerning) && !f.axes.is_empty() && (knob / 16) % 4 == 1 {
+            let full: Vec<usize> = f.full_sources().map(|(i, _)| i).collect();
+            let i = full[(knob as usize / 64) % full.len()];
+            let a = (knob as usize / 256) % f.axes.len();
+            let ax = &f.axes[a];
+            if !ax.is_point() {
+                for v in [0.5, -0.5, 0.25, -0.25, 0.75, -0.75] {
+                    if (v > 0.0 && ax.d_above <= 0.0) || (v < 0.0 && ax.d_below <= 0.0) { continue; }
+                    let mut norm = f.sources[i].norm.clone();
+                    if norm[a] == v { continue; }
+                    norm[a] = v;
+                    if f.sources.iter().any(|s| s.norm == norm) { continue; }
+                    let si = f.sources.len();
+                    let mut src = f.sources[i].clone(); src.name = format!("plateau_{si}"); src.norm = norm;
+                    f.sources.push(src);
+                    for gl in f.glyphs.iter_mut() { if let Some(d) = gl.sources.get(&i).cloned() { gl.sources.insert(si, d); } }
+                    break;
+                }
+            }
+        }
         f
     }
 }
